@@ -6,6 +6,7 @@ import SymfcModel.Model.Coset
 import SymfcModel.Lemmas.Chunk
 import SymfcModel.Lemmas.LinAlg
 import SymfcModel.Lemmas.Coset
+import SymfcModel.Lemmas.GroupAvg
 namespace Symfc.C02
 open Symfc
 
@@ -58,6 +59,39 @@ theorem stable_variant_is_nlp_times_the_fast_one (c : Cell) (hwf : c.wf = true) 
     (g : Array Nat) (hg : Coset.Normalises c g) (r v : Nat) :
     (cosetPairs c n g false none).count (r, v) = c.nlp * (cosetPairs c n g true none).count (r, v) :=
   Coset.cosetPairs_stable_eq_nlp_mul_fast c hwf n hn g hg r v
+
+section Average
+open Matrix GroupAvg
+variable {K : Type*} [Field K] [LinearOrder K] [IsStrictOrderedRing K]
+variable {G : Type*} [Group G] [Fintype G] {n k : Type*} [Fintype n] [DecidableEq n] [Fintype k] [DecidableEq k]
+
+/-- C02.c: the average of an orthogonal representation ρ of a finite group (here: of the point group on class space,
+    ρ(g) = permutation induced on classes ⊗ R_g^{⊗n}) is the ORTHOGONAL PROJECTOR onto the invariant vectors:
+    `P² = P`, `Pᵀ = P`, `P v = v ⇔ ∀ g, ρ(g) v = v`, and `ρ(h) P = P = P ρ(h)`. -/
+theorem group_average_is_the_projector_onto_invariants (ρ : G → Matrix n n K)
+    (hmul : ∀ g h, ρ (g * h) = ρ g * ρ h) (hone : ρ 1 = 1) (horth : ∀ g, (ρ g)ᵀ = ρ g⁻¹)
+    (P : Matrix n n K) (hP : P = (1 / (Fintype.card G : K)) • ∑ g, ρ g) :
+    (∀ h, ρ h * P = P ∧ P * ρ h = P) ∧ P * P = P ∧ Pᵀ = P ∧ ∀ v : n → K, P *ᵥ v = v ↔ ∀ g, ρ g *ᵥ v = v :=
+  avg_is_invariant_projector ρ hmul hone horth P hP
+
+/-- C02.c: hence the unit eigenvectors of the compressed matrix `Cᵀ P C` handed to `eigsh_projector` are exactly the
+    coefficient vectors whose expansion is invariant under EVERY operation of the group (all of them, not only
+    generators or coset representatives). -/
+theorem unit_eigenvectors_are_invariant_under_every_operation {ρ : G → Matrix n n K} (hρ : OrthRep ρ)
+    (C : Matrix n k K) (hC : Cᵀ * C = 1) (v : k → K) :
+    (Cᵀ * avg ρ * C) *ᵥ v = v ↔ ∀ g, ρ g *ᵥ (C *ᵥ v) = C *ᵥ v :=
+  G6 hρ C hC v
+
+omit [LinearOrder K] [IsStrictOrderedRing K] in
+/-- C02: averaging over the unique rotations only (the quotient of the space group by the lattice translations) equals
+    averaging over the whole group whenever the representation factors through the quotient — which it does on
+    translation-class space. -/
+theorem averaging_over_the_quotient_suffices [CharZero K] {H : Type*} [Group H] [Fintype H] (π : G →* H)
+    (hπ : Function.Surjective π) (ρ : G → Matrix n n K) (ρ' : H → Matrix n n K) (hfac : ∀ g, ρ g = ρ' (π g)) :
+    avg ρ = avg ρ' :=
+  G5 π hπ ρ ρ' hfac
+
+end Average
 
 section L3
 open Matrix
